@@ -1,7 +1,893 @@
-//! C16: not implemented yet.
-use crate::util::Args;
+//! C16: btor2 witness text round trip (patronus::btor2::{witness_to_string, parse_witness, parse_witnesses}).
+//!
+//! One case per line, two kinds:
+//!   (case ID (kind stream) (pm P) (wits W...) (impl R))     witnesses are printed one after another by the
+//!         real printer, the text is read back by the real reader with parse_max = P
+//!         R = (printpanic "loc") | (text "..") (parsepanic "loc") | (text "..") (ioerr) | (text "..") (parsed PW...) (single S)
+//!   (case ID (kind text) (pm P) (text "..") (mut "..") (impl R))   a given (possibly malformed) text is read
+//!         R = (parsepanic "loc") | (ioerr) | (parsed PW...) (reprint "..")|(reprintpanic "loc")
+//!
+//!   W  = (wit (failed n..) (init I..) (init_names N..) (inputs (f V..)..) (input_names N..))
+//!   I  = (bv bBITS) | none | (arr IW dense|sparse (default bBITS) (stores (bI bD)..) (indices bI..))
+//!   V  = (bv bBITS) | none | (arr ...)           N = "name" | none
+//!   PW = (wit (failed ..) (init PI..) (init_names N..) (inputs (f PV..)..) (input_names N..))
+//!   PI = (bv bBITS) | none | (parr IW DW (bI bD)..)   recorded indices sorted by value, with the selected data
+//!   PV = (bv bBITS) | none | (varr IW DW)
+use crate::dump::{bv_tok, quote};
+use crate::rng::Rng;
+use crate::sexp::{Sexp, read_cases};
+use crate::util::*;
+use baa::{ArrayMutOps, ArrayOps, ArrayValue, BitVecOps, BitVecValue, Value};
+use patronus::btor2;
+use patronus::mc::{InitValue, Witness};
+use std::io::Write;
 
-pub fn run(_args: &Args) {
-    eprintln!("C16: harness module not implemented yet");
-    std::process::exit(2);
+// ------------------------------------------------------------------ description of a witness
+#[derive(Clone, Debug)]
+struct Arr {
+    iw: u32,
+    dense: bool,
+    default: BitVecValue,
+    stores: Vec<(BitVecValue, BitVecValue)>,
+    indices: Vec<BitVecValue>,
+}
+
+#[derive(Clone, Debug)]
+enum Val {
+    Bv(BitVecValue),
+    Arr(Arr),
+    None,
+}
+
+#[derive(Clone, Debug, Default)]
+struct Wit {
+    init: Vec<Val>,
+    init_names: Vec<Option<String>>,
+    inputs: Vec<Vec<Val>>,
+    input_names: Vec<Option<String>>,
+    failed: Vec<u32>,
+}
+
+fn build_array(a: &Arr) -> ArrayValue {
+    let mut v = if a.dense { ArrayValue::new_dense(a.iw, &a.default) } else { ArrayValue::new_sparse(a.iw, &a.default) };
+    for (i, d) in a.stores.iter() {
+        v.store(i, d);
+    }
+    v
+}
+
+fn build(w: &Wit) -> Witness {
+    let mut out = Witness::default();
+    for v in w.init.iter() {
+        out.init.push(match v {
+            Val::Bv(b) => InitValue::BitVec(b.clone()),
+            Val::Arr(a) => InitValue::Array(build_array(a), a.indices.clone()),
+            Val::None => InitValue::None,
+        });
+    }
+    out.init_names = w.init_names.clone();
+    for f in w.inputs.iter() {
+        out.inputs.push(
+            f.iter()
+                .map(|v| match v {
+                    Val::Bv(b) => Some(Value::BitVec(b.clone())),
+                    Val::Arr(a) => Some(Value::Array(build_array(a))),
+                    Val::None => None,
+                })
+                .collect(),
+        );
+    }
+    out.input_names = w.input_names.clone();
+    out.failed_safety = w.failed.clone();
+    out
+}
+
+// ------------------------------------------------------------------ dumping
+fn dump_name(n: &Option<String>) -> String {
+    match n {
+        Some(s) => quote(s),
+        None => "none".to_string(),
+    }
+}
+
+fn dump_val(v: &Val) -> String {
+    match v {
+        Val::Bv(b) => format!("(bv {})", bv_tok(b)),
+        Val::None => "none".to_string(),
+        Val::Arr(a) => {
+            let stores: Vec<String> = a.stores.iter().map(|(i, d)| format!("({} {})", bv_tok(i), bv_tok(d))).collect();
+            let idx: Vec<String> = a.indices.iter().map(bv_tok).collect();
+            format!(
+                "(arr {} {} (default {}) (stores{}{}) (indices{}{}))",
+                a.iw,
+                if a.dense { "dense" } else { "sparse" },
+                bv_tok(&a.default),
+                if stores.is_empty() { "" } else { " " },
+                stores.join(" "),
+                if idx.is_empty() { "" } else { " " },
+                idx.join(" ")
+            )
+        }
+    }
+}
+
+fn list_of(tag: &str, items: Vec<String>) -> String {
+    if items.is_empty() { format!("({tag})") } else { format!("({tag} {})", items.join(" ")) }
+}
+
+fn dump_wit(w: &Wit) -> String {
+    format!(
+        "(wit {} {} {} {} {})",
+        list_of("failed", w.failed.iter().map(|b| b.to_string()).collect()),
+        list_of("init", w.init.iter().map(dump_val).collect()),
+        list_of("init_names", w.init_names.iter().map(dump_name).collect()),
+        list_of("inputs", w.inputs.iter().map(|f| list_of("f", f.iter().map(dump_val).collect())).collect()),
+        list_of("input_names", w.input_names.iter().map(dump_name).collect())
+    )
+}
+
+/// canonical dump of a witness produced by the implementation's reader
+fn dump_parsed(w: &Witness) -> String {
+    let init: Vec<String> = w
+        .init
+        .iter()
+        .map(|v| match v {
+            InitValue::BitVec(b) => format!("(bv {})", bv_tok(b)),
+            InitValue::None => "none".to_string(),
+            InitValue::Array(a, indices) => {
+                // For sparse arrays the contents are read through the entry iterator (no map lookup): baa's
+                // lookup is unusable for index widths above 64 bits (see the finding in known_findings.txt).
+                let lookup: Box<dyn Fn(&BitVecValue) -> BitVecValue> = if a.is_sparse() {
+                    let sp = baa::SparseArrayValue::from(a);
+                    let default = sp.default();
+                    let entries: Vec<(BitVecValue, BitVecValue)> = sp.non_default_entries().collect();
+                    Box::new(move |i: &BitVecValue| {
+                        entries.iter().find(|(k, _)| k.width() == i.width() && k.is_equal(i)).map(|(_, v)| v.clone()).unwrap_or_else(|| default.clone())
+                    })
+                } else {
+                    let a = a.clone();
+                    Box::new(move |i: &BitVecValue| a.select(i))
+                };
+                let mut es: Vec<(String, String)> = indices.iter().map(|i| (i.to_bit_str(), lookup(i).to_bit_str())).collect();
+                // same width => lexicographic order of the bit strings is the order by value
+                es.sort();
+                let items: Vec<String> = es.iter().map(|(i, d)| format!("(b{i} b{d})")).collect();
+                format!("(parr {} {}{}{})", a.index_width(), a.data_width(), if items.is_empty() { "" } else { " " }, items.join(" "))
+            }
+        })
+        .collect();
+    let inputs: Vec<String> = w
+        .inputs
+        .iter()
+        .map(|f| {
+            list_of(
+                "f",
+                f.iter()
+                    .map(|v| match v {
+                        Some(Value::BitVec(b)) => format!("(bv {})", bv_tok(b)),
+                        Some(Value::Array(a)) => format!("(varr {} {})", a.index_width(), a.data_width()),
+                        None => "none".to_string(),
+                    })
+                    .collect(),
+            )
+        })
+        .collect();
+    format!(
+        "(wit {} {} {} {} {})",
+        list_of("failed", w.failed_safety.iter().map(|b| b.to_string()).collect()),
+        list_of("init", init),
+        list_of("init_names", w.init_names.iter().map(dump_name).collect()),
+        list_of("inputs", inputs),
+        list_of("input_names", w.input_names.iter().map(dump_name).collect())
+    )
+}
+
+// ------------------------------------------------------------------ reading descriptions back (--cases-in)
+fn parse_name(x: &Sexp) -> Option<String> {
+    match x {
+        Sexp::Str(s) => Some(s.clone()),
+        Sexp::Atom(a) if a == "none" => None,
+        other => panic!("bad name {other:?}"),
+    }
+}
+
+fn parse_val(x: &Sexp) -> Val {
+    match x {
+        Sexp::Atom(a) if a == "none" => Val::None,
+        Sexp::List(l) if l[0].atom() == "bv" => Val::Bv(l[1].bits()),
+        Sexp::List(l) if l[0].atom() == "arr" => {
+            let iw = l[1].num() as u32;
+            let dense = l[2].atom() == "dense";
+            let default = x.field("default").unwrap()[0].bits();
+            let stores = x.field("stores").unwrap_or(&[]).iter().map(|p| (p.list()[0].bits(), p.list()[1].bits())).collect();
+            let indices = x.field("indices").unwrap_or(&[]).iter().map(|i| i.bits()).collect();
+            Val::Arr(Arr { iw, dense, default, stores, indices })
+        }
+        other => panic!("bad value {other:?}"),
+    }
+}
+
+fn parse_wit(x: &Sexp) -> Wit {
+    Wit {
+        failed: x.field("failed").unwrap_or(&[]).iter().map(|n| n.num() as u32).collect(),
+        init: x.field("init").unwrap_or(&[]).iter().map(parse_val).collect(),
+        init_names: x.field("init_names").unwrap_or(&[]).iter().map(parse_name).collect(),
+        inputs: x.field("inputs").unwrap_or(&[]).iter().map(|f| f.list()[1..].iter().map(parse_val).collect()).collect(),
+        input_names: x.field("input_names").unwrap_or(&[]).iter().map(parse_name).collect(),
+    }
+}
+
+// ------------------------------------------------------------------ generators
+const WIDTHS: &[u32] = &[1, 2, 3, 4, 5, 6, 7, 8, 31, 32, 33, 63, 64, 65, 127, 128, 129];
+
+fn bits_from(s: &str) -> BitVecValue {
+    BitVecValue::from_bit_str(s).unwrap()
+}
+
+fn gen_bits(rng: &mut Rng, w: u32) -> BitVecValue {
+    let w = w as usize;
+    let s: String = match rng.below(9) {
+        0 => "0".repeat(w),
+        1 => format!("{}1", "0".repeat(w - 1)),
+        2 => "1".repeat(w),
+        3 => format!("1{}", "0".repeat(w - 1)),
+        4 => {
+            let k = rng.below(w as u64) as usize;
+            (0..w).map(|i| if i == k { '1' } else { '0' }).collect()
+        }
+        5 => (0..w).map(|i| if i % 2 == 0 { '1' } else { '0' }).collect(),
+        6 => {
+            let k = rng.below(w as u64 + 1) as usize;
+            (0..w).map(|i| if i < k { '0' } else { '1' }).collect()
+        }
+        _ => (0..w).map(|_| if rng.chance(1, 2) { '1' } else { '0' }).collect(),
+    };
+    bits_from(&s)
+}
+
+const GOOD_CHARS: &[&str] = &[
+    "a", "b", "x", "Z", "_", "0", "7", ".", "[", "]", "$", "\\", "\"", "(", ")", ":", "/", "-", "+", "'", "!", "\r", "\u{e9}", "\u{3bb}", "\u{a0}",
+    "\u{2003}", "\u{1f600}", "\u{b}", "\u{c}",
+];
+const BAD_CHARS: &[&str] = &[" ", "\t", ";", "@", "#", "\n"];
+
+/// (name, class)
+fn gen_name(rng: &mut Rng, id: usize, kind: &str, allow_bad: bool, stats: &mut Stats) -> Option<String> {
+    let r = rng.below(100);
+    if r < 8 {
+        stats.bump("name_class", "none");
+        return None;
+    }
+    if r < 45 {
+        stats.bump("name_class", "plain");
+        return Some(format!("{kind}{id}"));
+    }
+    if r < 55 {
+        stats.bump("name_class", "hierarchical");
+        return Some(format!("top.u{}.{kind}[{}]", rng.below(4), id));
+    }
+    if r < 58 {
+        stats.bump("name_class", "empty");
+        return Some(String::new());
+    }
+    if r < 62 {
+        stats.bump("name_class", "looks-like-default");
+        return Some(format!("state_{}", rng.below(4)));
+    }
+    if allow_bad && r < 70 {
+        stats.bump("name_class", "with-forbidden-char");
+        let n = rng.range(0, 3);
+        let mut s = String::new();
+        for _ in 0..n {
+            s.push_str(*rng.pick(GOOD_CHARS));
+        }
+        s.push_str(*rng.pick(BAD_CHARS));
+        for _ in 0..rng.range(0, 2) {
+            s.push_str(*rng.pick(GOOD_CHARS));
+        }
+        return Some(s);
+    }
+    stats.bump("name_class", "odd-chars");
+    let n = rng.range(1, 6);
+    let mut s = String::new();
+    for _ in 0..n {
+        s.push_str(*rng.pick(GOOD_CHARS));
+    }
+    Some(s)
+}
+
+/// Index widths above 64 bits run into a `todo!()` of baa (known finding).  Whether a lookup panics depends
+/// on the key being present in the map, and for absent keys on a hash collision under a randomly seeded hasher.
+/// To keep every run deterministic such arrays are generated in two shapes only: an empty map (no stores),
+/// or exactly one store of a non-default value at every recorded index.
+fn gen_big_index_array(rng: &mut Rng, stats: &mut Stats) -> Arr {
+    let iw = *rng.pick(&[65u32, 127, 128, 129]);
+    let dw = *rng.pick(WIDTHS);
+    let zero = bits_from(&"0".repeat(dw as usize));
+    let default = if rng.chance(1, 2) { zero.clone() } else { gen_bits(rng, dw) };
+    let n_idx = rng.range(1, 3);
+    let mut indices: Vec<BitVecValue> = vec![];
+    while indices.len() < n_idx as usize {
+        let i = gen_bits(rng, iw);
+        if !indices.iter().any(|j| j.is_equal(&i)) {
+            indices.push(i);
+        }
+    }
+    let mut stores = vec![];
+    if rng.chance(1, 2) {
+        for i in indices.iter() {
+            let mut d = gen_bits(rng, dw);
+            if d.is_equal(&default) {
+                // flip the least significant bit
+                let mut s = d.to_bit_str();
+                let last = s.pop().unwrap();
+                s.push(if last == '0' { '1' } else { '0' });
+                d = bits_from(&s);
+            }
+            stores.push((i.clone(), d));
+        }
+        stats.bump("big_index_array", "stored-at-recorded");
+    } else {
+        stats.bump("big_index_array", if default.is_equal(&zero) { "empty-map-zero-default" } else { "empty-map-nonzero-default" });
+    }
+    stats.bump("array_index_width", &iw.to_string());
+    stats.bump("array_data_width", &dw.to_string());
+    stats.bump("array_recorded_indices", &indices.len().to_string());
+    stats.bump("array_repr", "sparse");
+    Arr { iw, dense: false, default, stores, indices }
+}
+
+/// The shape `mc::bmc::get_witness` produces: a dense array read back from the solver with every index
+/// recorded, in ascending order.
+fn gen_full_array(rng: &mut Rng, stats: &mut Stats) -> Arr {
+    let iw = rng.range(1, 4) as u32;
+    let dw = *rng.pick(WIDTHS);
+    let default = gen_bits(rng, dw);
+    let mut indices = vec![];
+    let mut stores = vec![];
+    for k in 0..(1u64 << iw) {
+        let i = BitVecValue::from_u64(k, iw);
+        if rng.chance(2, 3) {
+            stores.push((i.clone(), gen_bits(rng, dw)));
+        }
+        indices.push(i);
+    }
+    stats.bump("array_index_width", &iw.to_string());
+    stats.bump("array_data_width", &dw.to_string());
+    stats.bump("array_recorded_indices", &format!("all-{}", indices.len()));
+    stats.bump("array_repr", "dense-all-indices");
+    Arr { iw, dense: true, default, stores, indices }
+}
+
+const SMALL_INDEX_WIDTHS: &[u32] = &[1, 2, 3, 4, 5, 6, 7, 8, 31, 32, 33, 63, 64];
+
+fn gen_array(rng: &mut Rng, stats: &mut Stats, allow_empty: bool, big_ok: bool) -> Arr {
+    if big_ok && rng.chance(1, 40) {
+        return gen_big_index_array(rng, stats);
+    }
+    if rng.chance(1, 10) {
+        return gen_full_array(rng, stats);
+    }
+    let iw = *rng.pick(SMALL_INDEX_WIDTHS);
+    let dw = *rng.pick(WIDTHS);
+    let dense = iw <= 6 && rng.chance(1, 3);
+    let default = if rng.chance(1, 2) { bits_from(&"0".repeat(dw as usize)) } else { gen_bits(rng, dw) };
+    let n_idx = if allow_empty && rng.chance(1, 12) { 0 } else { rng.range(1, 8) };
+    // distinct index values are limited by the index width
+    let mut indices: Vec<BitVecValue> = vec![];
+    for _ in 0..n_idx {
+        indices.push(gen_bits(rng, iw));
+    }
+    // sometimes repeat an index in the recorded list
+    if !indices.is_empty() && rng.chance(1, 6) {
+        let k = rng.below(indices.len() as u64) as usize;
+        let dup = indices[k].clone();
+        indices.push(dup);
+        stats.inc("arrays_with_repeated_index");
+    }
+    let mut stores = vec![];
+    let mut zero_entry = false;
+    for i in indices.iter() {
+        // some recorded indices are never stored (value = default), some store zero, some are overwritten
+        match rng.below(8) {
+            0 => {}
+            1 => {
+                stores.push((i.clone(), bits_from(&"0".repeat(dw as usize))));
+                zero_entry = true;
+            }
+            2 => {
+                stores.push((i.clone(), gen_bits(rng, dw)));
+                stores.push((i.clone(), gen_bits(rng, dw)));
+            }
+            _ => stores.push((i.clone(), gen_bits(rng, dw))),
+        }
+    }
+    // stores at indices that are not recorded
+    for _ in 0..rng.below(3) {
+        stores.push((gen_bits(rng, iw), gen_bits(rng, dw)));
+    }
+    if zero_entry {
+        stats.inc("arrays_with_zero_valued_entry");
+    }
+    stats.bump("array_index_width", &iw.to_string());
+    stats.bump("array_data_width", &dw.to_string());
+    stats.bump("array_recorded_indices", &indices.len().to_string());
+    stats.bump("array_repr", if dense { "dense" } else { "sparse" });
+    Arr { iw, dense, default, stores, indices }
+}
+
+#[derive(Clone, Copy, PartialEq, Debug)]
+enum Flavor {
+    /// inside the property's domain ("complete")
+    Complete,
+    /// may leave the domain: missing values, no failed property, forbidden characters, length mismatches
+    Wild,
+}
+
+fn gen_wit(rng: &mut Rng, stats: &mut Stats, flavor: Flavor, small: bool, big_ok: bool) -> Wit {
+    let wild = flavor == Flavor::Wild;
+    let n_states = if small { rng.range(0, 3) } else if rng.chance(1, 25) { rng.range(10, 13) } else { rng.range(0, 6) } as usize;
+    let n_inputs = if small { rng.range(0, 2) } else { rng.range(0, 5) } as usize;
+    let mut n_steps = if small { rng.range(1, 3) } else { rng.range(1, 12) } as usize;
+    if (wild && rng.chance(1, 6)) || (n_states > 0 && rng.chance(1, 10)) {
+        n_steps = 0;
+    }
+    let mut w = Wit::default();
+    let n_failed = if wild && rng.chance(1, 8) { 0 } else { rng.range(1, 4) };
+    for _ in 0..n_failed {
+        w.failed.push(match rng.below(6) {
+            0 => 0,
+            1 => u32::MAX,
+            2 => rng.below(1 << 31) as u32,
+            _ => rng.below(20) as u32,
+        });
+    }
+    for id in 0..n_states {
+        let v = match rng.below(10) {
+            0..=4 => {
+                let wd = *rng.pick(WIDTHS);
+                stats.bump("state_width", &wd.to_string());
+                Val::Bv(gen_bits(rng, wd))
+            }
+            5..=7 => Val::Arr(gen_array(rng, stats, true, big_ok)),
+            _ => Val::None,
+        };
+        stats.bump("state_kind", match &v { Val::Bv(_) => "bv", Val::Arr(_) => "array", Val::None => "none" });
+        w.init.push(v);
+        w.init_names.push(gen_name(rng, id, "state", wild, stats));
+    }
+    let in_widths: Vec<u32> = (0..n_inputs).map(|_| *rng.pick(WIDTHS)).collect();
+    for id in 0..n_inputs {
+        w.input_names.push(gen_name(rng, id, "in", wild, stats));
+        stats.bump("input_width", &in_widths[id].to_string());
+    }
+    for _ in 0..n_steps {
+        let mut f = vec![];
+        for id in 0..n_inputs {
+            let v = if wild && rng.chance(1, 12) {
+                Val::None
+            } else if wild && rng.chance(1, 40) {
+                Val::Arr(gen_array(rng, stats, false, false))
+            } else {
+                Val::Bv(gen_bits(rng, in_widths[id]))
+            };
+            f.push(v);
+        }
+        w.inputs.push(f);
+    }
+    if wild && rng.chance(1, 25) {
+        // length mismatches (assertions of the printer)
+        match rng.below(3) {
+            0 => w.init_names.push(None),
+            1 => w.input_names.push(Some("extra".into())),
+            _ => {
+                if let Some(f) = w.inputs.last_mut() {
+                    f.push(Val::Bv(bits_from("1")));
+                }
+            }
+        }
+        stats.inc("length_mismatch_cases");
+    }
+    stats.bump("n_states", &n_states.to_string());
+    stats.bump("n_inputs", &n_inputs.to_string());
+    stats.bump("n_steps", &n_steps.to_string());
+    stats.bump("n_failed", &n_failed.to_string());
+    w
+}
+
+// ------------------------------------------------------------------ malformed / varied texts
+fn valid_text(rng: &mut Rng, stats: &mut Stats) -> String {
+    let n = rng.range(1, 3);
+    let mut t = String::new();
+    let mut scratch = Stats::default();
+    for _ in 0..n {
+        let mut w = gen_wit(rng, &mut scratch, Flavor::Complete, true, false);
+        if w.init.is_empty() && w.inputs.is_empty() {
+            w.inputs.push(vec![]);
+            w.input_names.clear();
+        }
+        // plain names only: the text generator mutates lines, not names
+        for (i, n) in w.init_names.iter_mut().enumerate() {
+            *n = Some(format!("s{i}"));
+        }
+        for (i, n) in w.input_names.iter_mut().enumerate() {
+            *n = Some(format!("i{i}"));
+        }
+        t.push_str(&btor2::witness_to_string(&build(&w)));
+    }
+    let _ = stats;
+    t
+}
+
+const JUNK: &[&str] = &["x", "2", "10", "[1]", "[", "]", "[]", "b", "b1", "j0", "sat", ".", "#0", "#1", "@0", "@1", "@7", "01", "012", "0b1", "1 1", "", "; c", "@", "#", "b4294967296", "18446744073709551616"];
+
+fn mutate_text(rng: &mut Rng, base: &str, stats: &mut Stats) -> (String, String) {
+    let mut lines: Vec<String> = base.lines().map(|s| s.to_string()).collect();
+    let mut eol = "\n";
+    let mut final_nl = true;
+    let mut what = vec![];
+    let n_mut = rng.range(1, 3);
+    for _ in 0..n_mut {
+        if lines.is_empty() {
+            break;
+        }
+        let k = rng.below(lines.len() as u64) as usize;
+        let m = rng.below(17);
+        let name = match m {
+            0 => {
+                lines.remove(k);
+                "delete-line"
+            }
+            1 => {
+                let l = lines[k].clone();
+                lines.insert(k, l);
+                "duplicate-line"
+            }
+            2 => {
+                if k + 1 < lines.len() {
+                    lines.swap(k, k + 1);
+                }
+                "swap-lines"
+            }
+            3 => {
+                let mut toks: Vec<String> = lines[k].split(' ').map(|s| s.to_string()).collect();
+                let j = rng.below(toks.len() as u64) as usize;
+                toks[j] = rng.pick(JUNK).to_string();
+                lines[k] = toks.join(" ");
+                "replace-token"
+            }
+            4 => {
+                lines.insert(k, String::new());
+                "blank-line"
+            }
+            5 => {
+                lines.insert(k, "; a comment line".to_string());
+                "comment-line"
+            }
+            6 => {
+                lines[k] = format!("  \t{} \t ", lines[k]);
+                "pad-line"
+            }
+            7 => {
+                lines.truncate(k);
+                "truncate"
+            }
+            8 => {
+                // a later state frame as btormc prints it
+                let j = rng.range(1, 3);
+                lines.insert(k, format!("#{j}"));
+                lines.insert(k + 1, format!("0 1 s0#{j}"));
+                "insert-state-frame"
+            }
+            9 => {
+                eol = "\r\n";
+                "crlf"
+            }
+            10 => {
+                final_nl = false;
+                "no-final-newline"
+            }
+            11 => {
+                lines[k] = format!("{} ; trailing comment", lines[k]);
+                "trailing-comment"
+            }
+            12 => {
+                lines[k] = lines[k].replace(' ', "  \t ");
+                "wide-separators"
+            }
+            13 => {
+                lines[k] = rng.pick(JUNK).to_string();
+                "replace-line"
+            }
+            14 => {
+                let mut toks: Vec<String> = lines[k].split(' ').map(|s| s.to_string()).collect();
+                toks.push(rng.pick(JUNK).to_string());
+                lines[k] = toks.join(" ");
+                "extra-token"
+            }
+            15 => {
+                // decimal with '+' or leading zeros in the id position
+                if lines[k].chars().next().map(|c| c.is_ascii_digit()).unwrap_or(false) {
+                    lines[k] = format!("{}{}", if rng.chance(1, 2) { "+" } else { "00" }, lines[k]);
+                }
+                "id-plus-or-zeros"
+            }
+            _ => {
+                // suffix variants: btormc may write @0 for array states, names may carry more suffixes
+                lines[k] = lines[k].replace("#0", if rng.chance(1, 2) { "@0" } else { "#0@3#x" });
+                "suffix-variant"
+            }
+        };
+        stats.bump("text_mutation", name);
+        what.push(name);
+    }
+    let mut t = lines.join(eol);
+    if final_nl && !lines.is_empty() {
+        t.push_str(eol);
+    }
+    (t, what.join("+"))
+}
+
+// ------------------------------------------------------------------ witnesses of real BMC runs
+/// description of a witness produced by the implementation (arrays: contents at the recorded indices)
+fn wit_of_real(w: &Witness) -> Wit {
+    let arr = |a: &ArrayValue, indices: &[BitVecValue]| {
+        let dw = a.data_width();
+        Arr {
+            iw: a.index_width(),
+            dense: a.is_dense(),
+            default: bits_from(&"0".repeat(dw as usize)),
+            stores: indices.iter().map(|i| (i.clone(), a.select(i))).collect(),
+            indices: indices.to_vec(),
+        }
+    };
+    Wit {
+        init: w
+            .init
+            .iter()
+            .map(|v| match v {
+                InitValue::BitVec(b) => Val::Bv(b.clone()),
+                InitValue::Array(a, idx) => Val::Arr(arr(a, idx)),
+                InitValue::None => Val::None,
+            })
+            .collect(),
+        init_names: w.init_names.clone(),
+        inputs: w
+            .inputs
+            .iter()
+            .map(|f| {
+                f.iter()
+                    .map(|v| match v {
+                        Some(Value::BitVec(b)) => Val::Bv(b.clone()),
+                        Some(Value::Array(a)) => Val::Arr(arr(a, &[])),
+                        None => Val::None,
+                    })
+                    .collect()
+            })
+            .collect(),
+        input_names: w.input_names.clone(),
+        failed: w.failed_safety.clone(),
+    }
+}
+
+/// run patronus' own BMC (z3) on small btor2 files of the repository and feed every counterexample
+/// through the round trip
+fn bmc_witnesses(stats: &mut Stats, max_files: usize, only: Option<&str>) -> Vec<(String, Wit)> {
+    use patronus::mc::{ModelCheckResult, bmc};
+    use patronus::smt::{Solver, Z3};
+    let mut files: Vec<std::path::PathBuf> = vec![];
+    for dir in ["/repo/inputs/chiseltest", "/repo/inputs/unittest"] {
+        if let Ok(rd) = std::fs::read_dir(dir) {
+            for e in rd.flatten() {
+                let p = e.path();
+                let small = e.metadata().map(|m| m.len() < 20_000).unwrap_or(false);
+                if small && p.extension().map(|x| x == "btor" || x == "btor2").unwrap_or(false) {
+                    files.push(p);
+                }
+            }
+        }
+    }
+    files.sort();
+    if let Some(list) = only {
+        files = list.split(',').map(|f| std::path::PathBuf::from(format!("/repo/inputs/{f}"))).collect();
+    }
+    let mut out = vec![];
+    for p in files.iter() {
+        if out.len() >= max_files {
+            break;
+        }
+        let name = p.file_name().unwrap().to_string_lossy().to_string();
+        let res = guarded(|| {
+            let (mut ctx, sys) = btor2::parse_file(p)?;
+            if sys.bad_states.is_empty() {
+                return None;
+            }
+            let mut solver = Z3.start(None).ok()?;
+            match bmc(&mut ctx, &mut solver, &sys, false, false, 20) {
+                Ok(ModelCheckResult::Fail(w)) => Some(wit_of_real(&w)),
+                _ => None,
+            }
+        });
+        match res {
+            Ok(Some(w)) => {
+                stats.bump("bmc_file", "counterexample");
+                out.push((name, w));
+            }
+            Ok(None) => stats.bump("bmc_file", "no-counterexample-or-unreadable"),
+            Err(_) => stats.bump("bmc_file", "panic"),
+        }
+    }
+    out
+}
+
+// ------------------------------------------------------------------ running the implementation
+fn panic_loc() -> String {
+    quote(&last_panic_loc())
+}
+
+fn run_stream(id: &str, ws: &[Wit], pm: usize, stats: &mut Stats) -> String {
+    let head = format!("(case {id} (kind stream) (pm {pm}) {}", list_of("wits", ws.iter().map(dump_wit).collect()));
+    let built: Vec<Witness> = match guarded(|| ws.iter().map(build).collect()) {
+        Ok(b) => b,
+        Err(m) => {
+            // constructing the value failed inside baa (not patronus code): recorded, not a case
+            stats.bump("impl_outcome", "build-panic");
+            stats.notes.push(format!("building case {id} panicked at {}: {m}", last_panic_loc()));
+            return format!("{head} (impl (buildpanic {})))", panic_loc());
+        }
+    };
+    let text = guarded(|| built.iter().map(btor2::witness_to_string).collect::<Vec<_>>().concat());
+    let text = match text {
+        Err(_) => {
+            stats.bump("impl_outcome", "print-panic");
+            return format!("{head} (impl (printpanic {})))", panic_loc());
+        }
+        Ok(t) => t,
+    };
+    stats.bump("text_lines", &format!("{:02}x", text.lines().count() / 10));
+    let parsed = guarded(|| btor2::parse_witnesses(&mut text.as_bytes(), pm));
+    let parsed = match parsed {
+        Err(_) => {
+            stats.bump("impl_outcome", "parse-panic");
+            return format!("{head} (impl (text {}) (parsepanic {})))", quote(&text), panic_loc());
+        }
+        Ok(Err(_)) => {
+            stats.bump("impl_outcome", "io-error");
+            return format!("{head} (impl (text {}) (ioerr)))", quote(&text));
+        }
+        Ok(Ok(v)) => v,
+    };
+    stats.bump("impl_outcome", "read-back");
+    stats.bump("witnesses_read_back", &parsed.len().to_string());
+    // parse_witness must agree with parse_witnesses(.., 1)
+    let single = match guarded(|| btor2::parse_witness(&mut text.as_bytes())) {
+        Err(_) => "panic".to_string(),
+        Ok(Err(_)) => "ioerr".to_string(),
+        Ok(Ok(w)) => match guarded(|| btor2::parse_witnesses(&mut text.as_bytes(), 1)) {
+            Ok(Ok(v)) if v.len() == 1 && dump_parsed(&v[0]) == dump_parsed(&w) => "agrees".to_string(),
+            _ => "differs".to_string(),
+        },
+    };
+    format!(
+        "{head} (impl (text {}) {} (single {single})))",
+        quote(&text),
+        list_of("parsed", parsed.iter().map(dump_parsed).collect())
+    )
+}
+
+fn run_text(id: &str, text: &str, pm: usize, what: &str, stats: &mut Stats) -> String {
+    let head = format!("(case {id} (kind text) (pm {pm}) (text {}) (mut {})", quote(text), quote(what));
+    let parsed = guarded(|| btor2::parse_witnesses(&mut text.as_bytes(), pm));
+    let parsed = match parsed {
+        Err(_) => {
+            stats.bump("text_outcome", "parse-panic");
+            stats.bump("text_panic_at", &last_panic_loc());
+            return format!("{head} (impl (parsepanic {})))", panic_loc());
+        }
+        Ok(Err(_)) => {
+            stats.bump("text_outcome", "io-error");
+            return format!("{head} (impl (ioerr)))");
+        }
+        Ok(Ok(v)) => v,
+    };
+    stats.bump("text_outcome", &format!("read-{}", parsed.len()));
+    let reprint = match guarded(|| parsed.iter().map(btor2::witness_to_string).collect::<Vec<_>>().concat()) {
+        Ok(t) => format!("(reprint {})", quote(&t)),
+        Err(_) => format!("(reprintpanic {})", panic_loc()),
+    };
+    format!("{head} (impl {} {reprint}))", list_of("parsed", parsed.iter().map(dump_parsed).collect()))
+}
+
+pub fn run(args: &Args) {
+    if std::env::var("C16_DEBUG").is_ok() {
+        let _ = std::panic::take_hook();
+    }
+    let mut rng = Rng::new(args.seed);
+    let mut out = std::io::BufWriter::new(std::fs::File::create(&args.out).expect("out file"));
+    let mut stats = Stats::default();
+    let mut distinct = std::collections::HashSet::new();
+    let key_of = |line: &str| line[line.find("(kind").unwrap_or(0)..line.find("(impl").unwrap_or(line.len())].to_string();
+    if let Some(path) = args.get("cases-in") {
+        for c in read_cases(path).iter() {
+            let id = c.list()[1].atom().to_string();
+            let pm = c.field("pm").map(|p| p[0].num() as usize).unwrap_or(1);
+            let kind = c.field("kind").map(|k| k[0].atom().to_string()).unwrap_or_default();
+            let line = if kind == "text" {
+                let text = c.field("text").unwrap()[0].atom().to_string();
+                let what = c.field("mut").map(|m| m[0].atom().to_string()).unwrap_or_default();
+                run_text(&id, &text, pm, &what, &mut stats)
+            } else {
+                let ws: Vec<Wit> = c.field("wits").unwrap_or(&[]).iter().map(parse_wit).collect();
+                run_stream(&id, &ws, pm, &mut stats)
+            };
+            distinct.insert(key_of(&line));
+            stats.sample(&line, 3);
+            writeln!(out, "{line}").unwrap();
+        }
+    }
+    let mode = args.get("mode").unwrap_or("mix").to_string();
+    if mode == "bmc" {
+        let max_files = args.get_u64("files-max", 1000) as usize;
+        for (name, w) in bmc_witnesses(&mut stats, max_files, args.get("files")) {
+            stats.bump("kind", "stream-bmc");
+            stats.bump("n_states", &w.init.len().to_string());
+            stats.bump("n_steps", &w.inputs.len().to_string());
+            let id: String = name.chars().map(|c| if c.is_ascii_alphanumeric() { c } else { '_' }).collect();
+            let line = run_stream(&format!("bmc-{id}"), &[w.clone()], 1, &mut stats);
+            distinct.insert(key_of(&line));
+            stats.sample(&line, 3);
+            writeln!(out, "{line}").unwrap();
+            // and twice in a row, read as a stream
+            let line = run_stream(&format!("bmc2-{id}"), &[w.clone(), w], 2, &mut stats);
+            distinct.insert(key_of(&line));
+            writeln!(out, "{line}").unwrap();
+        }
+        stats.add("distinct_cases", distinct.len() as u64);
+        stats.write(&args.out);
+        return;
+    }
+    for id in 0..args.count {
+        let mut r = rng.fork();
+        let k = r.below(100);
+        let line = if mode == "text" || (mode == "mix" && k < 12) {
+            // a text that is not (necessarily) printer output
+            let base = valid_text(&mut r, &mut stats);
+            let (text, what) = mutate_text(&mut r, &base, &mut stats);
+            let pm = *r.pick(&[1usize, 1, 2, 3, 30, 0]);
+            stats.bump("kind", "text");
+            run_text(&id.to_string(), &text, pm, &what, &mut stats)
+        } else if mode == "wild" || (mode == "mix" && k < 30) {
+            // printer input that may be outside the property's domain
+            let n = if r.chance(1, 4) { r.range(2, 3) } else { 1 } as usize;
+            let ws: Vec<Wit> = (0..n).map(|_| gen_wit(&mut r, &mut stats, Flavor::Wild, false, true)).collect();
+            let pm = if n == 1 { 1 } else { *r.pick(&[n, n + 1, 1]) };
+            stats.bump("kind", "stream-wild");
+            stats.bump("stream_length", &n.to_string());
+            run_stream(&id.to_string(), &ws, pm, &mut stats)
+        } else {
+            // complete witnesses, single or several
+            let big_ok = args.get("big-index").map(|v| v != "0").unwrap_or(true);
+            let n = if r.chance(1, 3) { r.range(2, 5) } else { 1 } as usize;
+            let ws: Vec<Wit> = (0..n)
+                .map(|_| {
+                    let mut w = gen_wit(&mut r, &mut stats, Flavor::Complete, false, big_ok);
+                    if w.init.is_empty() && w.inputs.is_empty() {
+                        w.inputs.push(vec![]);
+                        w.input_names.clear();
+                    }
+                    w
+                })
+                .collect();
+            let pm = if n == 1 { *r.pick(&[1usize, 1, 1, 5]) } else { *r.pick(&[n, n, n + 3, 1, n - 1, 0]) };
+            stats.bump("kind", "stream-complete");
+            stats.bump("stream_length", &n.to_string());
+            stats.bump("parse_max_vs_length", if pm >= n { "all" } else { "prefix" });
+            run_stream(&id.to_string(), &ws, pm, &mut stats)
+        };
+        distinct.insert(key_of(&line));
+        stats.sample(&line, 3);
+        writeln!(out, "{line}").unwrap();
+    }
+    stats.add("distinct_cases", distinct.len() as u64);
+    stats.write(&args.out);
 }
